@@ -216,7 +216,10 @@ let run_k3_case (prog : program) (line : string) =
          for i = 0 to (min p n) - 1 do if not (List.mem toks_a.(i) skipped_i) then incr k done; !k in
        let bit salt num st =
          if nb = 0 then false
-         else bits.[((nonskip_before (int_of_nat st.pos)) * 5 + (int_of_nat num) * 3 + salt) mod nb] = '1' in
+         else
+           let pk i = int_of_nat (p_peek cx st (nat_of_int i)) in
+           let la = pk 0 * 7 + pk 1 * 11 + pk 2 * 13 + int_of_nat (p_peek_left cx st (nat_of_int 1)) * 17 in
+           bits.[((nonskip_before (int_of_nat st.pos)) * 5 + (int_of_nat num) * 3 + salt + la) mod nb] = '1' in
        let orc = { o_pred = (fun num st -> bit 0 num st); o_assert = (fun num st -> bit 1 num st) } in
        let fuel = nat_of_int (3000 + 100 * n) in
        (match parse_entry cx prog orc fuel (nat_of_int entry) (nat_of_int root) (nat_of_int msg_eof) with
